@@ -227,3 +227,99 @@ def run(ctx) -> None:
     ts.check_spec(ctx, "R-SHIFT", it, center_of_mass_spec(repo))
     _coord_axes(ctx, repo)
     _com_structure(ctx, repo)
+
+
+# ---- added after the seeded change C40-seed5: axis pairing inside the gradient integration
+_inner_run_c40 = run
+
+
+def run(ctx) -> None:  # noqa: F811
+    import ast as _ast
+
+    from ..model import call_name as _cn, dotted as _dotted, norm_text as _nt, walk_no_nested as _walk
+
+    ctx.rule("R-GRADAXES", "_integrate_gradient_2d builds the frequency grid of axis k from the number of points and the "
+             "sampling of the same axis k (x: shape[-2] with sampling[0], y: shape[-1] with sampling[1]), in 'ij' order, and "
+             "pairs the x gradient with the x frequencies and the y gradient with the y frequencies: with anisotropic "
+             "sampling any mismatch integrates a different field")
+    f = ctx.repo.function("abtem.measurements", "_integrate_gradient_2d")
+    assigns = {}
+    for st in _walk(f.node):
+        if isinstance(st, _ast.Assign) and len(st.targets) == 1:
+            t = st.targets[0]
+            if isinstance(t, _ast.Name):
+                assigns[t.id] = st.value
+            elif isinstance(t, _ast.Tuple):
+                if isinstance(st.value, _ast.Tuple) and len(st.value.elts) == len(t.elts):
+                    for a, b in zip(t.elts, st.value.elts):
+                        if isinstance(a, _ast.Name):
+                            assigns[a.id] = b
+                else:
+                    for k, a in enumerate(t.elts):
+                        if isinstance(a, _ast.Name):
+                            assigns[a.id] = ("unpack", st.value, k, len(t.elts))
+
+    def axis_of(e, depth=0):
+        """0 / 1 for an expression that denotes the x / y component of the grid, else None."""
+        if depth > 6:
+            return None
+        if isinstance(e, _ast.Subscript) and isinstance(e.slice, _ast.Constant) and isinstance(e.slice.value, int):
+            k = e.slice.value
+            return {0: 0, 1: 1, -2: 0, -1: 1}.get(k)
+        if isinstance(e, _ast.Name):
+            v = assigns.get(e.id)
+            if isinstance(v, tuple) and v[0] == "unpack":
+                _, src, k, n = v
+                if n == 2:
+                    return k
+                return None
+            if v is not None:
+                return axis_of(v, depth + 1)
+        if isinstance(e, _ast.Attribute) and e.attr in ("real", "imag"):
+            return 0 if e.attr == "real" else 1
+        if isinstance(e, _ast.Call) and e.args:
+            return axis_of(e.args[0], depth + 1)
+        return None
+
+    ff = [c for c in _walk(f.node) if isinstance(c, _ast.Call) and (_cn(c) or "").endswith("fftfreq")]
+    ctx.require(len(ff) == 2, "_integrate_gradient_2d: two fftfreq calls expected")
+    freq_axis = {}
+    for c in ff:
+        n_arg = c.args[0]
+        d_arg = next((kw.value for kw in c.keywords if kw.arg == "d"), c.args[1] if len(c.args) > 1 else None)
+        ctx.require(d_arg is not None, "fftfreq without a sample spacing")
+        an, ad = axis_of(n_arg), axis_of(d_arg)
+        if an is None or ad is None:
+            from ..model import AnalysisError as _AE
+            raise _AE(f"_integrate_gradient_2d: cannot resolve the axis of `{_nt(c)}`")
+        ctx.check(an == ad, "R-GRADAXES", f"{f.qualname}:fftfreq axis {an}", f.loc(c),
+                  f"`{_nt(c)}` pairs the size and the sampling of axis {an}",
+                  f"`{_nt(c)}` pairs the number of points of axis {an} with the sampling of axis {ad}", key_detail=f"freq{an}")
+        for name, v in assigns.items():
+            if v is c:
+                freq_axis[name] = an
+    mg = [c for c in _walk(f.node) if isinstance(c, _ast.Call) and (_cn(c) or "").endswith("meshgrid")]
+    ctx.require(len(mg) == 1, "_integrate_gradient_2d: meshgrid not found")
+    order = [freq_axis.get(_dotted(a)) for a in mg[0].args[:2]]
+    ij = any(kw.arg == "indexing" and isinstance(kw.value, _ast.Constant) and kw.value.value == "ij" for kw in mg[0].keywords)
+    ctx.check(order == [0, 1] and ij, "R-GRADAXES", f"{f.qualname}:meshgrid", f.loc(mg[0]),
+              "frequency grids in (x, y) 'ij' order", f"`{_nt(mg[0])}` does not build the (x, y) grids in 'ij' order",
+              key_detail="meshgrid")
+    grid_axis = {}
+    for name, v in assigns.items():
+        if isinstance(v, tuple) and v[0] == "unpack" and v[1] is mg[0]:
+            grid_axis[name] = v[2]
+    prods = [b for b in _walk(f.node) if isinstance(b, _ast.BinOp) and isinstance(b.op, _ast.Mult)
+             and any(isinstance(c, _ast.Call) and (_cn(c) or "").endswith("fft2") for c in (b.left, b.right))]
+    ctx.require(len(prods) >= 2, "_integrate_gradient_2d: gradient x frequency products not found")
+    for b in prods:
+        call, other = (b.left, b.right) if isinstance(b.left, _ast.Call) else (b.right, b.left)
+        ga = axis_of(call.args[0]) if call.args else None
+        ka = grid_axis.get(_dotted(other))
+        if ga is None or ka is None:
+            continue
+        ctx.check(ga == ka, "R-GRADAXES", f"{f.qualname}:product axis {ga}", f.loc(b),
+                  f"gradient component {ga} multiplied by the frequencies of axis {ka}",
+                  f"`{_nt(b)[:60]}` multiplies gradient component {ga} by the frequency grid of axis {ka}",
+                  key_detail=f"prod{ga}")
+    _inner_run_c40(ctx)
